@@ -498,6 +498,15 @@ pub fn gen_case(rng: &mut Rng, steps: usize) -> (Case, Profile) {
     let mut history: Vec<Step> = Vec::new();
     let in_addrs: Vec<Addr> = all_addrs(&globals, &progs, &fbs).into_iter().filter(|a| a.area == 'I').collect();
     let m_addrs: Vec<Addr> = all_addrs(&globals, &progs, &fbs).into_iter().filter(|a| a.area == 'M').collect();
+    // sized process images with a field driver: the sizes cover every declared address, so that no
+    // write ever grows an image (the image is sized once at start-up, as `trust-runtime run` does)
+    let all = all_addrs(&globals, &progs, &fbs);
+    let extent = |area: char| all.iter().filter(|a| a.area == area).map(|a| (a.byte + a.nbytes()) as usize).max().unwrap_or(0);
+    let driver = if rng.chance(1, 2) {
+        Some((extent('I') + rng.below(3) as usize, extent('Q') + rng.below(3) as usize, extent('M') + rng.below(2) as usize))
+    } else {
+        None
+    };
     let store = rng.chance(1, 2);
     let scripted_store = store && rng.chance(1, 3);
     let store_starts_unwritable = store && rng.chance(1, 4);
@@ -511,6 +520,25 @@ pub fn gen_case(rng: &mut Rng, steps: usize) -> (Case, Profile) {
         let r = rng.below(if store { 112 } else { 100 });
         let step = match r {
             0..=41 => Step::Cycle(*rng.pick(&dts) * 1_000_000),
+            42..=55 if driver.is_some() && !in_addrs.is_empty() && rng.chance(2, 3) => {
+                // the field presents a new input image (safe boundary patterns at every %I address)
+                let mut bytes = vec![0u8; driver.unwrap().0];
+                for a in &in_addrs {
+                    if rng.chance(3, 4) {
+                        let raw = io_raw(rng, a);
+                        if a.size == 'X' {
+                            if raw != 0 {
+                                bytes[a.byte as usize] |= 1 << a.bit;
+                            }
+                        } else {
+                            for k in 0..a.nbytes() as usize {
+                                bytes[a.byte as usize + k] = (raw >> (8 * k)) as u8;
+                            }
+                        }
+                    }
+                }
+                Step::Field(bytes)
+            }
             42..=55 => {
                 if let Some(a) = pick_opt(rng, &in_addrs) {
                     Step::Io(a.clone(), io_raw(rng, &a))
@@ -588,6 +616,7 @@ pub fn gen_case(rng: &mut Rng, steps: usize) -> (Case, Profile) {
             twin: true,
             scripted_store,
             store_starts_unwritable,
+            driver,
         },
         profile,
     )
